@@ -265,7 +265,7 @@ func (g *gctx) defineLCA() string {
 	if r.Intn(5) < 2 { // every single-field perturbation of the evidence
 		muts := []string{"badsig", "badsiglast", "fewsig", "flagabs", "flagnil", "sigaddr", "sigaddrnil", "sigaddr2", "cmheight",
 			"d0", "d1", "d2", "d3", "d4", "round", "cvpow", "byzdrop", "byzextra", "byzpow", "byzaddr", "byzswap", "byzone",
-			"sigaddr", "sigaddrnil", "flagnil", "flagnil1", "flagabs1", "sigaddr1", "sigaddrnil1"}
+			"sigaddr", "sigaddrnil", "flagnil", "flagnil1", "flagabs1", "sigaddr1", "sigaddrnil1", "wiretotal", "wiretotal"}
 		mut = muts[r.Intn(len(muts))]
 		if r.Intn(5) == 0 { // who counts as a signer: nil / absent / misaddressed slots of members
 			mut = []string{"flagnil", "flagnil1", "flagabs1", "sigaddr1", "sigaddrnil1"}[r.Intn(5)]
@@ -624,7 +624,7 @@ func genCase(r *rand.Rand, long bool) core.Case {
 	return core.Case{Kind: kind, Ops: g.ops}
 }
 
-var lcaMuts = []string{"none", "badsig", "badsiglast", "fewsig", "flagabs", "flagabs1", "flagnil", "flagnil1", "sigaddr", "sigaddr1",
+var lcaMuts = []string{"none", "wiretotal", "badsig", "badsiglast", "fewsig", "flagabs", "flagabs1", "flagnil", "flagnil1", "sigaddr", "sigaddr1",
 	"sigaddrnil", "sigaddrnil1", "sigaddr2", "cmheight", "d0", "d1", "d2", "d3", "d4", "round", "cvpow", "byzdrop", "byzextra", "byzpow",
 	"byzaddr", "byzswap", "byzone"}
 
@@ -690,6 +690,113 @@ func genLCASweep(r *rand.Rand) core.Case {
 		g.c.evDB.Close()
 	}
 	return core.Case{Kind: "lca-sweep", Ops: g.ops}
+}
+
+// genApplyBlock: a genuine chain applied block by block through BlockExecutor.ApplyBlock with the
+// real pool; crashes at every point inside ApplyBlock, restarts over the same databases, and the
+// evidence of the interrupted block offered again
+func genApplyBlock(r *rand.Rand) core.Case {
+	N := int64(8 + r.Intn(7))
+	A := int64(3 + r.Intn(6))
+	D := []int64{1, 3000000000, 100000000000}[r.Intn(3)]
+	g := &gctx{r: r, N: N, M: 1 << 20, genu: map[string]bool{}, kindOf: map[string]string{}}
+	g.do(fmt.Sprintf("ctx A=%d D=%d M=1048576 mode=ab", A, D))
+	nv := 1 + r.Intn(3)
+	var toks, fl []string
+	for k := 0; k < nv; k++ {
+		toks = append(toks, fmt.Sprintf("%s:%d:%s", kt(k), []int64{1, 5, 10}[r.Intn(3)], kt(k)))
+		fl = append(fl, "2")
+	}
+	t := int64(0)
+	for h := int64(1); h <= N; h++ {
+		t += []int64{1000000000, 1500000000, 2000000000}[r.Intn(3)]
+		g.do(fmt.Sprintf("blk h=%d t=%d vals=%s cr=0 cf=%s hash=00000000 d=00000000.00000000.00000000.00000000.00000000",
+			h, t, strings.Join(toks, ","), strings.Join(fl, ",")))
+	}
+	h0 := 2 + r.Int63n(2)
+	g.do(fmt.Sprintf("abinit h=%d", h0))
+	g.curH, g.storeH = h0, h0
+	proposal := func() string {
+		out := g.do("pe max=1048576")
+		var l []string
+		if i := strings.Index(out, "ids="); i >= 0 && out[i+4:] != "-" {
+			for _, k := range strings.Split(out[i+4:], ",") {
+				if id := g.idOfKey(k); id != "" {
+					l = append(l, id)
+				}
+			}
+		}
+		if len(l) == 0 {
+			return "-"
+		}
+		return strings.Join(l, ",")
+	}
+	for g.curH < N {
+		for i := 0; i < r.Intn(3); i++ {
+			h := 1 + r.Int63n(g.curH)
+			id := g.defineDV(g.genuineDV(h), true)
+			if id == "" {
+				continue
+			}
+			switch r.Intn(5) {
+			case 0:
+				g.do("recv l=" + id)
+			case 1:
+				g.do("rpcbroadcast e=" + id)
+			case 2:
+				g.do(fmt.Sprintf("report e=%s swap=%d", id, r.Intn(2)))
+			default:
+				g.do("add e=" + id)
+			}
+		}
+		evs := proposal()
+		if evs == "-" && r.Intn(4) == 0 { // evidence the pool never saw, straight from a block
+			if id := g.defineDV(g.genuineDV(1+r.Int63n(g.curH)), true); id != "" {
+				evs = id
+			}
+		}
+		crash := "-"
+		if r.Intn(2) == 0 {
+			crash = []string{"b1", "a1", "b2", "a2", "b3", "a3"}[r.Intn(6)]
+		}
+		out := g.do(fmt.Sprintf("apply h=%d ev=%s crash=%s", g.curH+1, evs, crash))
+		switch {
+		case strings.HasPrefix(out, "ok"):
+			g.curH++
+		case strings.HasPrefix(out, "crash") || strings.HasPrefix(out, "panic"):
+			if r.Intn(3) == 0 {
+				g.do("pe max=-1") // dead
+			}
+			if strings.HasPrefix(g.do("abrestart"), "ok") {
+				g.curH++ // the handshake brings the state to the stored block
+			}
+			g.do("pe max=-1")
+			if evs != "-" {
+				g.do("check l=" + evs)
+				if r.Intn(2) == 0 {
+					g.do("add e=" + strings.Split(evs, ",")[0])
+				}
+			}
+		default: // the proposal was rejected
+			if r.Intn(2) == 0 {
+				g.do(fmt.Sprintf("apply h=%d ev=- crash=-", g.curH+1))
+				if g.c.abn != nil && g.c.abn.state.LastBlockHeight == g.curH+1 {
+					g.curH++
+				}
+			}
+		}
+		g.storeH = g.curH
+	}
+	g.do("pe max=-1")
+	g.do("abrestart")
+	g.do("pe max=-1")
+	if g.c != nil {
+		g.c.abClose()
+		if g.c.evDB != nil {
+			g.c.evDB.Close()
+		}
+	}
+	return core.Case{Kind: "applyblock", Ops: g.ops}
 }
 
 // genBacklog: a pending backlog larger than one block's worth of evidence (small Evidence.MaxBytes,
@@ -938,7 +1045,7 @@ func hostileLine(r *rand.Rand, g *gctx) string {
 	l := []string{
 		"frobnicate", "add", "add e=nosuch", "check l=nosuch,alsonot", "check", "update h=x ev=-", "update ev=-",
 		fmt.Sprintf("update h=%d ev=-", g.N+5), "grow h=0", fmt.Sprintf("grow h=%d", g.N+1), "grow h=y", "init h=1",
-		"blk t=5 vals=k1:1:k1", "blk h=1 t=5 vals=0badc0de:1:0badc0de cr=0 cf=2 hash=00000000 d=zz", "report e=nosuch swap=0", "report e=d1", "pe", "pe max=z", "restart now", "recv", "recv l=nosuch", "rpcbroadcast", "rpcbroadcast e=nosuch", "prep e=nosuch ph=3", "prep e=d1 ph=q",
+		"blk t=5 vals=k1:1:k1", "blk h=1 t=5 vals=0badc0de:1:0badc0de cr=0 cf=2 hash=00000000 d=zz", "report e=nosuch swap=0", "report e=d1", "pe", "pe max=z", "restart now", "recv", "recv l=nosuch", "rpcbroadcast", "rpcbroadcast e=nosuch", "apply h=3 ev=- crash=-", "abrestart", "abinit h=1", "apply h=3 ev=- crash=zz", "prep e=nosuch ph=3", "prep e=d1 ph=q",
 		"ev id=q kind=dv", "ev id=q kind=zz hash=00 sz=1 vb=1 tvp=1 t=1", "update h=1 ev=nosuch", "report e=d1 swap=2",
 	}
 	return l[r.Intn(len(l))]
@@ -960,6 +1067,9 @@ func gen(r *rand.Rand, tier string, emit func(core.Case)) {
 	}
 	for i := 0; i < nl/2; i++ {
 		emit(genLCASweep(r))
+	}
+	for i := 0; i < nl; i++ {
+		emit(genApplyBlock(r))
 	}
 	// malformed streams: ops before any context, wrong order
 	for i := 0; i < 20; i++ {
